@@ -70,6 +70,8 @@ def cases() -> Any:
         "bag": st.sampled_from([False, True]),
         # the task has a parameter filled by a cached Context-reading dependency; the FIRST message passes a value for it explicitly
         "explicit_dep": st.sampled_from([False, False, True]),
+        # all messages go to a task WITHOUT dependencies that has an optional keyword argument; only the first message passes it
+        "nodeps": st.sampled_from([False, False, False, True]),
         # the second delivery is a byte-identical copy of the first one (a redelivered message)
         "dup_payload": st.sampled_from([False, False, True]),
         # every message carries a label `prio`: typed (int, with a labels_types entry) as taskiq's own client sends it, or - for
@@ -121,6 +123,7 @@ def run_case(c: Dict[str, Any]) -> Outcome:
     seen_labels: Dict[Any, List[Any]] = {}
     bags: Dict[Any, List[Any]] = {}
     whos: Dict[Any, List[Any]] = {}
+    footers: Dict[Any, List[Any]] = {}
     cur: Dict[Any, int] = {}
     spans: Dict[int, List[float]] = {}
 
@@ -136,6 +139,8 @@ def run_case(c: Dict[str, Any]) -> Outcome:
             bags.setdefault(k, []).append(payload[0])
         elif kind == "who":
             whos.setdefault(k, []).append(payload[0])
+        elif kind == "footer":
+            footers.setdefault(k, []).append(tuple(payload))
 
     res: Dict[str, Any] = {}
 
@@ -173,9 +178,13 @@ def run_case(c: Dict[str, Any]) -> Outcome:
             b.dependency_overrides[getattr(mod, f"n{rep['target']}")] = getattr(mod, f"r{ri}")
         b.register_task(task, task_name="t")
         b.register_task(mod.plain, task_name="plain")
+        b.register_task(mod.nodeps, task_name="nodeps")
         r = Receiver(b, executor=wh.Inline(), max_async_tasks=10, run_startup=False)
 
         def payload(k: int, slp: float) -> Any:
+            if c.get("nodeps"):
+                kw_ = {"footer": "footer-of-0"} if k == 0 else {}
+                return b.formatter.dumps(AsyncKicker("nodeps", b, {}).with_task_id(tid_of(k))._prepare_message(k, slp, **kw_)).message
             plain = bool((c.get("to_plain") or [False] * 4)[k % 4]) and k > 0 and len(msgs) > 1 and c.get("no_task_ctx")
             kw = {"box": "1,2"} if c.get("box") and not plain else {}     # the same wire value in every message
             if c.get("bag") and not plain:
@@ -232,6 +241,12 @@ def run_case(c: Dict[str, Any]) -> Outcome:
             if bx != [1, 2, src(k)]:
                 out.add("C06.a", f"execution of message id{k} appended its own id to its list argument (sent in the short form '1,2') and later "
                                  f"observed {bx}: the argument object is shared with another execution")
+    for k, fl in sorted(footers.items(), key=lambda kv: str(kv[0])):
+        for me_, footer_ in fl:
+            want_f = "footer-of-0" if src(k) == 0 else None
+            if me_ != src(k) or footer_ != want_f:
+                out.add("C06.a", f"execution #{k} of the dependency-free task observed (me={me_!r}, footer={footer_!r}); its message carried me={src(k)} and "
+                                 f"{'footer=' + repr(want_f) if want_f else 'no footer (default None)'} - only message 0 passed a footer")
     for k, wl in sorted(whos.items(), key=lambda kv: str(kv[0])):
         want_who = "given-by-caller-0" if src(k) == 0 else tid_of(k)
         for w_ in wl:
@@ -253,7 +268,7 @@ def run_case(c: Dict[str, Any]) -> Outcome:
         stored.setdefault(tid, []).append((is_err, rv, en))
     want_by_id: Dict[str, List[int]] = {}
     for k in range(len(msgs)):
-        if k == 0 and c.get("requeue_first") and c.get("no_labels") and not c.get("no_task_ctx"):
+        if k == 0 and c.get("requeue_first") and c.get("no_labels") and not c.get("no_task_ctx") and not c.get("nodeps"):
             want_by_id.setdefault(tid_of(k), [])
             continue      # the requeueing execution signals no-result
         want_by_id.setdefault(tid_of(k), []).append(src(k))
@@ -272,7 +287,7 @@ def run_case(c: Dict[str, Any]) -> Outcome:
             if not uc and (nodes[j]["ctx"] or any(nodes[d]["ctx"] for d in dg.descendants(nodes, j))):
                 risky = True
     out.nontrivial = bool(overlap and risky)
-    out.classes = [c_ for c_, f in (("overlap", overlap), ("uncached_ctx_reader", risky), ("custom_ctx", c.get("custom_ctx")), ("dependency_overrides", bool(c.get("overrides"))), ("context_only_via_dependencies", bool(c.get("no_task_ctx"))), ("label_less_messages", bool(c.get("no_labels"))), ("two_messages_same_task_id", bool(c.get("same_id"))), ("byte_identical_redelivery", bool(c.get("dup_payload"))), ("nested_mutable_argument", bool(c.get("bag"))), ("explicit_value_for_injected_parameter", bool(c.get("explicit_dep"))), ("typed_and_untyped_label_messages", bool(c.get("untyped")) and len({is_untyped(k) for k in range(len(msgs))}) == 2),
+    out.classes = [c_ for c_, f in (("overlap", overlap), ("uncached_ctx_reader", risky), ("custom_ctx", c.get("custom_ctx")), ("dependency_overrides", bool(c.get("overrides"))), ("context_only_via_dependencies", bool(c.get("no_task_ctx"))), ("label_less_messages", bool(c.get("no_labels"))), ("two_messages_same_task_id", bool(c.get("same_id"))), ("byte_identical_redelivery", bool(c.get("dup_payload"))), ("nested_mutable_argument", bool(c.get("bag"))), ("explicit_value_for_injected_parameter", bool(c.get("explicit_dep"))), ("dependency_free_task_optional_kwarg", bool(c.get("nodeps"))), ("typed_and_untyped_label_messages", bool(c.get("untyped")) and len({is_untyped(k) for k in range(len(msgs))}) == 2),
                                     ("generator_style", any(nodes[i]["style"] in dg.YIELDING for i in reach))) if f]
     out.trace = {"echoes": {str(k): [list(e[:3]) for e in v[:6]] for k, v in echoes.items()}, "spans": {str(k): v for k, v in spans.items()}}
     return out
